@@ -978,12 +978,70 @@ class SymEval:
         if isinstance(e, ast.Starred):
             return ("star", self.expr(e.value, st))
         if isinstance(e, (ast.ListComp, ast.SetComp, ast.GeneratorExp, ast.DictComp)):
+            if isinstance(e, ast.ListComp) and len(e.generators) == 1 and not e.generators[0].is_async:
+                # a list comprehension over a short sequence of known length (a constant range / tuple, a list display) is the display of its elements
+                g0 = e.generators[0]
+                src0 = self.expr(g0.iter, st.copy())
+                seq0 = self.concrete_seq(src0)
+                items = [self.lift(v) for v in seq0] if seq0 is not None and not isinstance(seq0, (str, bytes)) else (list(src0[1]) if src0[0] in ("list", "tuple") else None)
+                if items is not None and len(items) <= 8:
+                    out_items, okk = [], True
+                    for v in items:
+                        inner = st.copy()
+                        self.assign(g0.target, v, inner, e)
+                        keep = True
+                        for cnd in g0.ifs:
+                            b = self.truth(self.cond(self.expr(cnd, inner)))
+                            if b is None:
+                                okk = False
+                                break
+                            keep = keep and b
+                        if not okk:
+                            break
+                        if keep:
+                            out_items.append(self.expr(e.elt, inner))
+                    if okk:
+                        return ("list", tuple(out_items), self._new_uid())
+            if isinstance(e, ast.DictComp) and len(e.generators) == 1 and not e.generators[0].is_async:
+                # {k: v for x in S if c} is  d = {}; for x in S: if c: d[k] = v  - evaluated as those statements (the comprehension's variable stays local)
+                g0 = e.generators[0]
+                dn = f"__dictcomp_{e.lineno}_{e.col_offset}"
+                store = ast.Assign(targets=[ast.Subscript(value=ast.Name(id=dn, ctx=ast.Load()), slice=e.key, ctx=ast.Store())], value=e.value)
+                body = [store]
+                if g0.ifs:
+                    test = g0.ifs[0] if len(g0.ifs) == 1 else ast.BoolOp(op=ast.And(), values=list(g0.ifs))
+                    body = [ast.If(test=test, body=[store], orelse=[])]
+                loop = ast.For(target=g0.target, iter=g0.iter, body=body, orelse=[], type_comment=None)
+                init = ast.Assign(targets=[ast.Name(id=dn, ctx=ast.Store())], value=ast.Dict(keys=[], values=[]))
+                for n_ in (init, loop):
+                    ast.copy_location(n_, e)
+                    ast.fix_missing_locations(n_)
+                tnames = {n.id for n in ast.walk(g0.target) if isinstance(n, ast.Name)}
+                saved = {k: st.env.get(k) for k in tnames}
+                st2 = self.block([init, loop], st)
+                val = st2.env.pop(dn, top("dict comprehension"))
+                for k, v in saved.items():
+                    if v is None:
+                        st2.env.pop(k, None)
+                    else:
+                        st2.env[k] = v
+                st.env, st.dnf, st.dead = st2.env, st2.dnf, st2.dead
+                return val
             # evaluate the source iterables for their effects; the value is opaque
             inner = st.copy()
             lid = f"{self._lid_prefix}C{e.lineno}"
             conds, it = [], TOP
             for g in e.generators:
                 it = self.expr(g.iter, inner)
+                src = self.loop_info.get(it[3]) if (it[0] == "comp" and len(it) == 4 and it[1] in ("ListComp", "GeneratorExp")) else None
+                if src is not None and src.get("comp") and it[2] == ("elem", src.get("iter"), it[3]) and isinstance(g.target, ast.Name):
+                    # the source is itself a comprehension that only filters ([x for x in X if c]): this one ranges over X under the same filter
+                    old_e, it = it[2], src["iter"]
+                    for c0 in src.get("conds", []):
+                        c1 = _subst_term(c0, old_e, ("elem", it, lid))
+                        conds.append(c1)
+                        if self.truth(c1) is None:
+                            inner.assume(c1, True)
                 for n in ast.walk(g.target):
                     if isinstance(n, ast.Name):
                         inner.env[n.id] = ("elem", it, lid)
@@ -1055,6 +1113,12 @@ class SymEval:
         return ("idx", base, idx)
 
     def binop(self, sym, a, b):
+        if sym == "+" and a[0] == b[0] and a[0] in ("list", "tuple"):
+            return ("list", a[1] + b[1], self._new_uid()) if a[0] == "list" else ("tuple", a[1] + b[1])  # concatenation of two displays
+        if sym == "%" and is_const(a) and isinstance(a[1], str) and not is_const(b):
+            parts = _percent_parts(a[1], b)
+            if parts is not None:
+                return _mk_fstr(parts)
         if is_const(a) and is_const(b):
             try:
                 if sym in ("<<", "**") and isinstance(b[1], int) and b[1] > 4096:
@@ -1076,6 +1140,13 @@ class SymEval:
                 if is_const(x) and isinstance(x[1], str) and y[0] == "bin" and y[1] == "+" and is_const(y[2]) and isinstance(y[2][1], str):
                     if not x[1].startswith(y[2][1]) or (y[3][0] == "fstr" and y[3][1] and is_const(y[3][1][0]) and not x[1][len(y[2][1]):].startswith(str(y[3][1][0][1]))):
                         return const(sym == "!=")
+        if sym in ("==", "!="):
+            for x, y in ((a, b), (b, a)):
+                # an f-string that begins / ends with literal text can only equal a constant string that begins / ends with it
+                if is_const(x) and isinstance(x[1], str) and y[0] == "fstr" and y[1]:
+                    first, last = y[1][0], y[1][-1]
+                    if (is_const(first) and isinstance(first[1], str) and not x[1].startswith(first[1])) or (is_const(last) and isinstance(last[1], str) and not x[1].endswith(last[1])):
+                        return const(sym == "!=")
         if sym in _CMPFN:
             # a comparison of a gated constant (a result code chosen on earlier tests) with a constant is a boolean combination of those tests
             for x, y, left in ((a, b, True), (b, a, False)):
@@ -1096,6 +1167,22 @@ class SymEval:
         if sym in ("is", "is not", "==", "!=") and is_const(b) and b[1] is None and a[0] in ("tuple", "list", "dict", "gval", "nonnull", "self", "func", "class"):
             return const(sym in ("is not", "!="))
         return ("cmp", sym, a, b)
+
+    @staticmethod
+    def call_join_display(sep, disp):
+        parts = []
+        for i, it in enumerate(disp[1]):
+            if i and sep[1]:
+                parts.append(const(sep[1]))
+            if it[0] == "fstr":
+                parts.extend(it[1])
+            elif is_const(it) and isinstance(it[1], str):
+                parts.append(it)
+            else:
+                parts.append(("fmt", it, "", -1))
+        if len(parts) == 1 and parts[0][0] == "fmt" and parts[0][2] == "" and parts[0][3] == -1:
+            return parts[0][1]  # a single string item is itself
+        return _mk_fstr(parts) if parts else const("")
 
     def _bool_tree(self, t, pred):
         if is_const(t):
@@ -1125,8 +1212,35 @@ class SymEval:
         xs = (a[1] if a[0] == "or" else (a,)) + (b[1] if b[0] == "or" else (b,))
         return ("or", tuple(xs))
 
+    def _is_functools_reduce(self, fn) -> bool:
+        mod = self.ce.repo.modules.get(self.func.module) if self.func is not None else None
+        if mod is None:
+            return False
+        if isinstance(fn, ast.Name):
+            return any(isinstance(n, ast.ImportFrom) and n.module == "functools" and any(a.name == "reduce" and (a.asname or a.name) == fn.id for a in n.names) for n in mod.tree.body)
+        if isinstance(fn, ast.Attribute) and fn.attr == "reduce" and isinstance(fn.value, ast.Name):
+            return any(isinstance(n, ast.Import) and any(a.name == "functools" and (a.asname or a.name) == fn.value.id for a in n.names) for n in mod.tree.body)
+        return False
+
     def call(self, e: ast.Call, st: State):
         fn = e.func
+        if len(e.args) == 3 and not e.keywords and self._is_functools_reduce(fn):
+            # reduce(f, xs, init) is  acc = init; for x in xs: acc = f(acc, x)  - evaluated as those statements
+            f_, xs_, init_ = e.args
+            if isinstance(xs_, ast.Call) and isinstance(xs_.func, ast.Name) and xs_.func.id == "iter" and len(xs_.args) == 1 and not xs_.keywords:
+                xs_ = xs_.args[0]
+            an, xn = f"__reduce_{e.lineno}_{e.col_offset}", f"__item_{e.lineno}_{e.col_offset}"
+            step = ast.Assign(targets=[ast.Name(id=an, ctx=ast.Store())], value=ast.Call(func=f_, args=[ast.Name(id=an, ctx=ast.Load()), ast.Name(id=xn, ctx=ast.Load())], keywords=[]))
+            loop = ast.For(target=ast.Name(id=xn, ctx=ast.Store()), iter=xs_, body=[step], orelse=[], type_comment=None)
+            init = ast.Assign(targets=[ast.Name(id=an, ctx=ast.Store())], value=init_)
+            for n_ in (init, loop):
+                ast.copy_location(n_, e)
+                ast.fix_missing_locations(n_)
+            st2 = self.block([init, loop], st)
+            val = st2.env.pop(an, top("reduce"))
+            st2.env.pop(xn, None)
+            st.env, st.dnf, st.dead = st2.env, st2.dnf, st2.dead
+            return val
         if isinstance(fn, ast.Attribute):
             recv = self.expr(fn.value, st)
             f = ("attr", recv, fn.attr)
@@ -1176,6 +1290,38 @@ class SymEval:
                 return self.lift(getattr(rv, f[2])(*[a[1] for a in args], **{k: v[1] for k, v in kwargs}))
             except Exception:
                 pass
+        if f == ("builtin", "format") and 1 <= len(args) <= 2 and not kwargs and (len(args) == 1 or (is_const(args[1]) and isinstance(args[1][1], str))):
+            return _mk_fstr([("fmt", args[0], args[1][1] if len(args) == 2 else "", -1)])  # format(x[, spec]) is f"{x:spec}"
+        if f[0] == "attr" and f[2] == "join" and is_const(recv) and isinstance(recv[1], str) and len(args) == 1 and not kwargs and args[0][0] in ("tuple", "list"):
+            # sep.join((a, b, c)) on a display: the items (strings, or join raises) with the separator between them
+            parts = []
+            for i, it in enumerate(args[0][1]):
+                if i and recv[1]:
+                    parts.append(const(recv[1]))
+                if it[0] == "fstr":
+                    parts.extend(it[1])
+                elif is_const(it) and isinstance(it[1], str):
+                    parts.append(it)
+                else:
+                    parts.append(("fmt", it, "", -1))
+            return _mk_fstr(parts) if parts else const("")
+        if f[0] == "attr" and f[2] == "join" and is_const(recv) and isinstance(recv[1], str) and len(args) == 1 and not kwargs and args[0][0] == "bin" and args[0][1] == "+" \
+                and args[0][2][0] in ("tuple", "list") and args[0][2][1] and args[0][3][0] == "comp" and len(args[0][3]) == 4:
+            # sep.join([a, b] + [e(x) for x in xs])  is  sep.join([a, b]) + "".join(sep + e(x) for x in xs)   (the display is not empty)
+            head = self.call_join_display(recv, args[0][2])
+            comp = args[0][3]
+            elt = comp[2]
+            eparts = list(elt[1]) if elt[0] == "fstr" else [elt if (is_const(elt) and isinstance(elt[1], str)) else ("fmt", elt, "", -1)]
+            elt2 = _mk_fstr(([const(recv[1])] if recv[1] else []) + eparts)
+            uid2 = self._new_uid()
+            tail = ("call", uid2, ("attr", const(""), "join"), ((comp[0], comp[1], elt2, comp[3]),), ())
+            return ("bin", "+", head, tail)
+        if f[0] == "attr" and f[2] in ("zfill", "rjust") and recv[0] == "call" and recv[2] == ("builtin", "str") and len(recv[3]) == 1 and not recv[4] and not kwargs \
+                and ((f[2] == "zfill" and len(args) == 1) or (f[2] == "rjust" and len(args) == 2 and args[1] == const("0"))) and is_const(args[0]) and isinstance(args[0][1], int) and 0 < args[0][1] < 100:
+            # str(i).zfill(n) is f"{i:0nd}" for an int i (sign handling included); the callers format group indices
+            if self.effects and self.effects[-1].term is recv:
+                self.effects.pop()
+            return _mk_fstr([("fmt", recv[3][0], f"0{args[0][1]}d", -1)])
         if f[0] == "attr" and f[2] == "format" and is_const(recv) and isinstance(recv[1], str) and None not in [k for k, _ in kwargs] and not any(isinstance(a, ast.Starred) for a in e.args):
             # a literal template formatted with str.format is the f-string with the same holes
             parts = _format_call_parts(recv[1], args, kwargs)
@@ -1306,6 +1452,54 @@ def _mk_fstr(parts):
         except Exception:
             pass
     return ("fstr", tuple(parts))
+
+
+def _subst_term(t, old, new):
+    if t == old:
+        return new
+    if isinstance(t, tuple):
+        return tuple(_subst_term(x, old, new) if isinstance(x, tuple) else x for x in t)
+    return t
+
+
+def _percent_parts(template: str, arg):
+    """'lit%dlit%03d' % (a, b) as the parts of the equivalent f-string (conversions d, i, s, r, x, X with optional 0-flag / width); else None."""
+    import re as _re
+
+    items = list(arg[1]) if arg[0] == "tuple" else [arg]
+    parts, pos, k = [], 0, 0
+    for m in _re.finditer(r"%(?:(%)|(0?)(\d*)([disrxX]))", template):
+        if template[pos:m.start()]:
+            parts.append(const(template[pos:m.start()]))
+        pos = m.end()
+        if m.group(1):
+            parts.append(const("%"))
+            continue
+        if k >= len(items):
+            return None
+        zero, width, conv = m.group(2), m.group(3), m.group(4)
+        v = items[k]
+        k += 1
+        if conv in ("d", "i"):
+            parts.append(("fmt", v, f"{zero}{width}d", -1))
+        elif conv in ("x", "X"):
+            parts.append(("fmt", v, f"{zero}{width}{conv}", -1))
+        elif conv == "s" and not zero and not width:
+            if v[0] == "fstr":
+                parts.extend(v[1])
+            elif is_const(v) and isinstance(v[1], str):
+                parts.append(v)
+            else:
+                parts.append(("fmt", v, "", -1))
+        elif conv == "r" and not zero and not width:
+            parts.append(("fmt", v, "", ord("r")))
+        else:
+            return None
+    if "%" in template[pos:].replace("%%", "") or k != len(items):
+        return None
+    if template[pos:]:
+        parts.append(const(template[pos:]))
+    return parts
 
 
 def _format_call_parts(template: str, args, kwargs):
